@@ -126,6 +126,8 @@ def jobs(tier, only_ops=None, prefix="C03", nmax_quick=6):
                 add("get", k, covers=(k == 1))
             add("iter", covers=True)
             add("mark", covers=True)
+            if n <= 4:
+                add("show", covers=True)
             if n <= 3:
                 for mop in range(0, 3):
                     add("hash_cmp", None, covers=(mop == n), mop=mop)
@@ -134,7 +136,7 @@ def jobs(tier, only_ops=None, prefix="C03", nmax_quick=6):
     return J
 
 
-TREE_OPS_FOR = {"C09": ["hash_cmp"], "C10": ["hash_cmp"], "C01": ["mark"], "C06": ["clear"], "C05": ["set", "rem", "clear", "assign"], "C11": ["iter"], "C12": ["rem", "get"], "C19": ["get", "iter"]}
+TREE_OPS_FOR = {"C14": ["show"], "C09": ["hash_cmp"], "C10": ["hash_cmp"], "C01": ["mark"], "C06": ["clear"], "C05": ["set", "rem", "clear", "assign"], "C11": ["iter"], "C12": ["rem", "get"], "C19": ["get", "iter"]}
 
 def tree_jobs(tier, prop):
     # the properties that share the Tree harness take the shapes up to 5 nodes in the quick tier (C03 itself: 6)
